@@ -10,6 +10,10 @@ macro_rules! dispatch {
     ($id:expr, $f:ident, $($arg:expr),*) => {
         match $id {
             "C01" => $f::<c01::C01>($($arg),*),
+            "C02" => $f::<c02::C02>($($arg),*),
+            "C03" => $f::<c03::C03>($($arg),*),
+            "C09" => $f::<c09::C09>($($arg),*),
+            "C11" => $f::<c11::C11>($($arg),*),
             _ => {
                 eprintln!("unknown property {}", $id);
                 2
